@@ -1,5 +1,7 @@
 (* Proofs/TruncSpec.v -- adding a truncated time point (Model/Truncated.v): the
-   unit-stepping loops stop inside their bounds and land on the next match. *)
+   unit-stepping loops stop inside their bounds; with time fields only they land
+   on the least match of Spec/NextMatch.v and adding again changes nothing; with
+   one day designator they land on a matching day not earlier than the start. *)
 From Coq Require Import QArith Qround Qabs Lqa List.
 From Iso Require Import Proofs.Tac Spec.Cal Spec.Instant Spec.NextMatch Model.Num Model.Helpers Model.Duration
   Model.TimePoint Model.Truncated Proofs.HelpersSpec Proofs.ConvSpec Proofs.TickSpec Proofs.AddSpec
@@ -406,3 +408,480 @@ Proof.
     apply day_matches_doy. exact Vdr.
 Qed.
 Print Assumptions add_trunc_day_partial.
+
+(* ====================================================================== *)
+(* time fields only                                                        *)
+(* ====================================================================== *)
+Open Scope Q_scope.
+
+(* the whole number of seconds a point is past local midnight of day 0 *)
+Definition wholeT (md : mode) (x : tp) (T : Z) : Prop :=
+  inject_Z T == qz (86400 * date_dn md (tdate x)) + tod_secs (ttod x).
+Definition good (md : mode) (x : tp) : Prop :=
+  normal_tp md x = true /\ match ttod x with HMS _ _ s => isint s | _ => False end.
+Definition TT (md : mode) (x : tp) : Z := Qfloor (qz (86400 * date_dn md (tdate x)) + tod_secs (ttod x)).
+
+Lemma wholeT_TT md x T : wholeT md x T -> TT md x = T.
+Proof. unfold wholeT, TT. intros H. rewrite <- (Qfloor_comp _ _ H). apply Qfloor_Z. Qed.
+
+Lemma isint_bounds x lo hi : isint x -> inject_Z lo <= x -> x < inject_Z hi ->
+  exists z, x == inject_Z z /\ (lo <= z < hi)%Z.
+Proof.
+  intros [z H] A B. exists z. split; [exact H|]. rewrite H in A, B.
+  rewrite <- Zle_Qle in A. rewrite <- Zlt_Qlt in B. lia.
+Qed.
+
+Lemma good_fields md x : good md x ->
+  exists h m s, ttod x = HMS h m s /\ wholeT md x (TT md x) /\
+    h == inject_Z ((TT md x mod 86400) / 3600) /\ m == inject_Z ((TT md x mod 3600) / 60) /\
+    s == inject_Z (TT md x mod 60).
+Proof.
+  intros [N I]. destruct (normal_tp_parts md x N) as (_ & Nt & _).
+  destruct (ttod x) as [h m s | |] eqn:Et; try contradiction.
+  destruct (normal_hms_inv _ _ _ Nt) as (Ih & Im & H1 & H2 & H3 & H4 & H5 & H6).
+  destruct (isint_bounds h 0 24 Ih H1 H2) as (hz & Eh & Bh).
+  destruct (isint_bounds m 0 60 Im H3 H4) as (mz & Em & Bm).
+  destruct (isint_bounds s 0 60 I H5 H6) as (sz & Es & Bs).
+  exists h, m, s. split; [reflexivity|].
+  set (dn := date_dn md (tdate x)).
+  assert (W : wholeT md x (86400 * dn + 3600 * hz + 60 * mz + sz)).
+  { unfold wholeT. rewrite Et. cbn [tod_secs]. fold dn. rewrite Eh, Em, Es. unfold qz.
+    rewrite !inject_Z_plus, !inject_Z_mult. ring. }
+  rewrite (wholeT_TT md x _ W). split; [exact W|].
+  clearbody dn.
+  replace ((86400 * dn + 3600 * hz + 60 * mz + sz) mod 86400 / 3600)%Z with hz by lia.
+  replace ((86400 * dn + 3600 * hz + 60 * mz + sz) mod 3600 / 60)%Z with mz by lia.
+  replace ((86400 * dn + 3600 * hz + 60 * mz + sz) mod 60)%Z with sz by lia.
+  auto.
+Qed.
+
+Lemma valid_whole md p : valid_tp md p = true -> whole_second p -> exists T, wholeT md p T.
+Proof.
+  intros V W. destruct (valid_tp_parts md p V) as (_ & Vt & _). unfold whole_second in W.
+  destruct (ttod p) as [h m s | |] eqn:Et; try contradiction.
+  unfold valid_tod in Vt. apply andb_prop in Vt. destruct Vt as [Vt _]. apply andb_prop in Vt.
+  destruct Vt as [Ih Im]. apply qis_int_iff in Ih, Im, W.
+  destruct Ih as [hz Eh]. destruct Im as [mz Em]. destruct W as [sz Es].
+  exists (86400 * date_dn md (tdate p) + hz * 3600 + mz * 60 + sz)%Z.
+  unfold wholeT. rewrite Et. cbn [tod_secs]. rewrite Eh, Em, Es. unfold qz.
+  rewrite !inject_Z_plus, !inject_Z_mult. ring.
+Qed.
+
+(* a normalised whole-second point delta seconds later *)
+Lemma good_after md x T r delta : wholeT md x T -> normal_tp md r = true -> tod_kind (ttod r) = 0%Z ->
+  tzone r = tzone x -> instant md r == instant md x + inject_Z delta ->
+  good md r /\ TT md r = (T + delta)%Z.
+Proof.
+  intros W N K Z I. unfold instant in I. rewrite Z in I. unfold wholeT in W.
+  assert (W' : wholeT md r (T + delta)).
+  { unfold wholeT. rewrite inject_Z_plus, W. lra. }
+  split; [|apply wholeT_TT; exact W'].
+  split; [exact N|]. destruct (normal_tp_parts md r N) as (_ & Nt & _).
+  destruct (ttod r) as [h m s | |] eqn:Et; try discriminate K.
+  destruct (normal_hms_inv _ _ _ Nt) as (Ih & Im & _).
+  unfold wholeT in W'. rewrite Et in W'. cbn [tod_secs] in W'.
+  apply isint_eq with (inject_Z (T + delta) - qz (86400 * date_dn md (tdate r)) - h * qz 3600 - m * qz 60).
+  - rewrite W'. ring.
+  - repeat apply isint_sub; try apply isint_mul; try apply isint_Z; assumption.
+Qed.
+
+Lemma good_bump md x t' delta : good md x ->
+  tod_secs t' == tod_secs (ttod x) + inject_Z delta -> tod_kind t' = 0%Z ->
+  let r := tick_over md (with_tod x t') in
+  good md r /\ TT md r = (TT md x + delta)%Z /\ tzone r = tzone x /\ rep_kind (tdate r) = rep_kind (tdate x).
+Proof.
+  intros G S K. cbv zeta. destruct (good_fields md x G) as (h & m & s & Et & W & _).
+  destruct G as [N I].
+  destruct (time_stage md x t' (inject_Z delta) (normal_valid md x N) S) as [(R1 & R2 & R3 & R4 & R5) N'].
+  { rewrite Et. exact K. }
+  destruct (good_after md x _ _ delta W N') as [G' T']; try assumption.
+  { rewrite R4, Et. reflexivity. }
+  auto.
+Qed.
+
+Lemma bump_sec_step md x : good md x -> let r := tick_over md (bump_sec x) in
+  good md r /\ TT md r = (TT md x + 1)%Z /\ tzone r = tzone x /\ rep_kind (tdate r) = rep_kind (tdate x).
+Proof.
+  intros G. destruct (good_fields md x G) as (h & m & s & Et & _). unfold bump_sec. rewrite Et.
+  apply good_bump; [exact G | | reflexivity]. rewrite Et. cbn [tod_secs]. rewrite qadd_eq.
+  change (inject_Z 1) with 1. ring.
+Qed.
+Lemma bump_min_step md x : good md x -> let r := tick_over md (bump_min x) in
+  good md r /\ TT md r = (TT md x + 60)%Z /\ tzone r = tzone x /\ rep_kind (tdate r) = rep_kind (tdate x).
+Proof.
+  intros G. destruct (good_fields md x G) as (h & m & s & Et & _). unfold bump_min. rewrite Et.
+  apply good_bump; [exact G | | reflexivity]. rewrite Et. cbn [tod_secs]. rewrite qadd_eq. qlit. ring.
+Qed.
+Lemma bump_hr_step md x : good md x -> let r := tick_over md (bump_hr x) in
+  good md r /\ TT md r = (TT md x + 3600)%Z /\ tzone r = tzone x /\ rep_kind (tdate r) = rep_kind (tdate x).
+Proof.
+  intros G. destruct (good_fields md x G) as (h & m & s & Et & _). unfold bump_hr. rewrite Et.
+  cbn [add_hours].
+  apply good_bump; [exact G | | reflexivity]. rewrite Et. cbn [tod_secs]. rewrite qadd_eq. qlit. ring.
+Qed.
+
+Lemma get_sec md x : good md x -> exists v, tod_sec x = Some v /\ v == inject_Z (TT md x mod 60).
+Proof.
+  intros G. destruct (good_fields md x G) as (h & m & s & Et & _ & _ & _ & Es).
+  exists s. unfold tod_sec. rewrite Et. auto.
+Qed.
+Lemma get_min md x : good md x -> exists v, tod_min x = Some v /\ v == inject_Z ((TT md x mod 3600) / 60).
+Proof.
+  intros G. destruct (good_fields md x G) as (h & m & s & Et & _ & _ & Em & _).
+  exists m. unfold tod_min. rewrite Et. auto.
+Qed.
+Lemma get_hr md x : good md x -> exists v, tod_hr x = Some v /\ v == inject_Z ((TT md x mod 86400) / 3600).
+Proof.
+  intros G. destruct (good_fields md x G) as (h & m & s & Et & _ & Eh & _ & _).
+  exists h. unfold tod_hr. rewrite Et. auto.
+Qed.
+
+Open Scope Z_scope.
+
+(* ---------- one field stepped up to its target ---------- *)
+Section TLoop.
+  Variables (md : mode) (get : tp -> option Q) (bump : tp -> tp) (delta M : Z) (fld : Z -> Z) (tz : Z).
+  Hypothesis Hget : forall x, good md x -> exists v, get x = Some v /\ (v == inject_Z (fld (TT md x)))%Q.
+  Hypothesis Hbump : forall x, good md x -> let r := tick_over md (bump x) in
+    good md r /\ TT md r = TT md x + delta /\ tzone r = tzone x /\ rep_kind (tdate r) = rep_kind (tdate x).
+  Hypothesis Hmu : forall T, fld T <> tz ->
+    1 <= (tz - fld T) mod M /\ (tz - fld (T + delta)) mod M = (tz - fld T) mod M - 1.
+  Hypothesis Hmu0 : forall T, 0 <= (tz - fld T) mod M < M /\ (fld T = tz -> (tz - fld T) mod M = 0).
+
+  Lemma tloop_cond target x : (target == inject_Z tz)%Q -> good md x ->
+    match get x with Some v => negb (qeqb v target) | None => false end = negb (fld (TT md x) =? tz).
+  Proof.
+    intros Ht G. destruct (Hget x G) as (v & -> & Ev). rewrite (qeqb_eqv _ _ _ _ Ev Ht). reflexivity.
+  Qed.
+
+  Lemma tloop target bound x0 : (target == inject_Z tz)%Q -> good md x0 -> M <= bound + 1 ->
+    exists r j, step_until md get bump target bound x0 = TOk r /\ good md r /\ tzone r = tzone x0 /\
+      rep_kind (tdate r) = rep_kind (tdate x0) /\ 0 <= j < M /\ TT md r = TT md x0 + delta * j /\
+      fld (TT md r) = tz /\ (forall i, 0 <= i < j -> fld (TT md x0 + delta * i) <> tz).
+  Proof.
+    intros Ht G0 B. unfold step_until. cbv zeta.
+    set (cond := fun x : tp => match get x with Some v => negb (qeqb v target) | None => false end).
+    set (step := fun x : tp => tick_over md (bump x)).
+    set (mu := fun x : tp => (tz - fld (TT md x)) mod M).
+    set (Inv := fun x : tp => good md x /\ tzone x = tzone x0 /\ rep_kind (tdate x) = rep_kind (tdate x0) /\
+                   exists j, 0 <= j /\ TT md x = TT md x0 + delta * j /\ j + mu x = mu x0 /\
+                             forall i, 0 <= i < j -> fld (TT md x0 + delta * i) <> tz).
+    destruct (loop_spec cond step Inv mu) with (n := bound) (a := x0) as [(G & Z & K & j & J0 & J1 & J2 & J3) C].
+    - intros x (G & Z & K & j & J0 & J1 & J2 & J3) Cx. unfold cond in Cx. rewrite (tloop_cond _ _ Ht G) in Cx.
+      assert (F : fld (TT md x) <> tz) by lia. clear Cx.
+      destruct (Hbump x G) as (G' & T' & Z' & K'). fold (step x) in *.
+      destruct (Hmu _ F) as [M1 M2]. split; [|unfold mu; rewrite T', M2; apply Z.le_refl].
+      split; [exact G'|]. split; [congruence|]. split; [congruence|].
+      exists (j + 1). split; [lia|]. split; [rewrite T', J1; ring|].
+      split; [unfold mu in *; rewrite T', M2, <- J2; ring|].
+      intros i Hi. destruct (Z.eq_dec i j) as [->|Ne]; [rewrite <- J1; exact F | apply J3; lia].
+    - intros x (G & _) Cx. unfold cond in Cx. rewrite (tloop_cond _ _ Ht G) in Cx.
+      assert (F : fld (TT md x) <> tz) by lia. apply (Hmu _ F).
+    - split; [exact G0|]. split; [reflexivity|]. split; [reflexivity|].
+      exists 0. split; [lia|]. split; [ring|]. split; [ring|]. intros; lia.
+    - destruct (Hmu0 (TT md x0)) as [A _]. unfold mu. set (a := (tz - _) mod M) in *. clearbody a. lia.
+    - match goal with |- context [if ?b then THang else _] => change b with (cond (loop cond step bound x0)) end.
+      rewrite C. pose proof (tloop_cond target _ Ht G) as C'.
+      change (cond (loop cond step bound x0) = negb (fld (TT md (loop cond step bound x0)) =? tz)) in C'.
+      rewrite C in C'.
+      assert (F : fld (TT md (loop cond step bound x0)) = tz) by lia.
+      exists (loop cond step bound x0), j. split; [reflexivity|]. split; [exact G|]. split; [exact Z|].
+      split; [exact K|]. split; [|auto]. unfold mu in J2.
+      destruct (Hmu0 (TT md (loop cond step bound x0))) as [_ A]. specialize (A F). rewrite A in J2.
+      destruct (Hmu0 (TT md x0)) as [A0 _]. set (a := (tz - _) mod M) in *. clearbody a. lia.
+  Qed.
+
+  Lemma tloop_done target bound x : (target == inject_Z tz)%Q -> good md x -> fld (TT md x) = tz ->
+    step_until md get bump target bound x = TOk x.
+  Proof.
+    intros Ht G F. unfold step_until. cbv zeta. rewrite loop_done.
+    - rewrite (tloop_cond _ _ Ht G). rewrite F, Z.eqb_refl. reflexivity.
+    - rewrite (tloop_cond _ _ Ht G). rewrite F, Z.eqb_refl. reflexivity.
+  Qed.
+End TLoop.
+
+Definition fs (T : Z) : Z := T mod 60.
+Definition fm (T : Z) : Z := (T mod 3600) / 60.
+Definition fh (T : Z) : Z := (T mod 86400) / 3600.
+
+Lemma sec_loop md sQ sT x0 : (sQ == inject_Z sT)%Q -> 0 <= sT < 60 -> good md x0 ->
+  exists r j, step_until md tod_sec bump_sec sQ 61 x0 = TOk r /\ good md r /\ tzone r = tzone x0 /\
+    rep_kind (tdate r) = rep_kind (tdate x0) /\ 0 <= j < 60 /\ TT md r = TT md x0 + 1 * j /\
+    fs (TT md r) = sT /\ (forall i, 0 <= i < j -> fs (TT md x0 + 1 * i) <> sT).
+Proof.
+  intros Ht B G. apply (tloop md tod_sec bump_sec 1 60 fs sT); try assumption; unfold fs; try lia.
+  - apply get_sec.
+  - apply bump_sec_step.
+Qed.
+Lemma min_loop md sQ sT x0 : (sQ == inject_Z sT)%Q -> 0 <= sT < 60 -> good md x0 ->
+  exists r j, step_until md tod_min bump_min sQ 61 x0 = TOk r /\ good md r /\ tzone r = tzone x0 /\
+    rep_kind (tdate r) = rep_kind (tdate x0) /\ 0 <= j < 60 /\ TT md r = TT md x0 + 60 * j /\
+    fm (TT md r) = sT /\ (forall i, 0 <= i < j -> fm (TT md x0 + 60 * i) <> sT).
+Proof.
+  intros Ht B G. apply (tloop md tod_min bump_min 60 60 fm sT); try assumption; unfold fm; try lia.
+  - apply get_min.
+  - apply bump_min_step.
+Qed.
+Lemma hr_loop md sQ sT x0 : (sQ == inject_Z sT)%Q -> 0 <= sT < 24 -> good md x0 ->
+  exists r j, step_until md tod_hr bump_hr sQ 25 x0 = TOk r /\ good md r /\ tzone r = tzone x0 /\
+    rep_kind (tdate r) = rep_kind (tdate x0) /\ 0 <= j < 24 /\ TT md r = TT md x0 + 3600 * j /\
+    fh (TT md r) = sT /\ (forall i, 0 <= i < j -> fh (TT md x0 + 3600 * i) <> sT).
+Proof.
+  intros Ht B G. apply (tloop md tod_hr bump_hr 3600 24 fh sT); try assumption; unfold fh; try lia.
+  - apply get_hr.
+  - apply bump_hr_step.
+Qed.
+
+(* ---------- the three loops together reach the least matching second ---------- *)
+Definition omatch (o : option Z) (v : Z) : Prop := match o with Some a => v = a | None => True end.
+Definition pm (sT : Z) (mo ho : option Z) (T : Z) : Prop :=
+  fs T = sT /\ omatch mo (fm T) /\ omatch ho (fh T).
+Definition least (sT : Z) (mo ho : option Z) (T0 T3 : Z) : Prop :=
+  T0 <= T3 < T0 + 86400 /\ pm sT mo ho T3 /\ forall T', T0 <= T' -> pm sT mo ho T' -> T3 <= T'.
+
+Lemma omatch_none_zero (o : option Z) (f : Z -> Z) j : 0 <= j ->
+  (forall i, 0 <= i < j -> ~ omatch o (f i)) -> o = None -> j = 0.
+Proof.
+  intros Hj H ->. destruct (Z.eq_dec j 0) as [E|E]; [exact E|].
+  exfalso. apply (H 0); [lia | exact I].
+Qed.
+
+Lemma combine sT mo ho T0 j1 j2 j3 : 0 <= j1 < 60 -> 0 <= j2 < 60 -> 0 <= j3 < 24 ->
+  fs (T0 + 1 * j1) = sT -> (forall i, 0 <= i < j1 -> fs (T0 + 1 * i) <> sT) ->
+  omatch mo (fm (T0 + 1 * j1 + 60 * j2)) ->
+  (forall i, 0 <= i < j2 -> ~ omatch mo (fm (T0 + 1 * j1 + 60 * i))) ->
+  omatch ho (fh (T0 + 1 * j1 + 60 * j2 + 3600 * j3)) ->
+  (forall i, 0 <= i < j3 -> ~ omatch ho (fh (T0 + 1 * j1 + 60 * j2 + 3600 * i))) ->
+  (mo = None -> ho = None) ->
+  least sT mo ho T0 (T0 + 1 * j1 + 60 * j2 + 3600 * j3).
+Proof.
+  intros B1 B2 B3 S1 L1 M2 L2 H3 L3 MH.
+  set (T1 := T0 + 1 * j1) in *. set (T2 := T1 + 60 * j2) in *. set (T3 := T2 + 3600 * j3) in *.
+  split; [unfold T3, T2, T1; lia|]. split.
+  - split; [|split].
+    + unfold fs in *. unfold T3, T2. lia.
+    + destruct mo as [b|]; [|exact I]. cbn [omatch] in *. unfold fm in *. unfold T3. lia.
+    + exact H3.
+  - intros T' HT (P1 & P2 & P3).
+    assert (A1 : T1 <= T').
+    { destruct (Z_lt_le_dec T' T1) as [G|G]; [exfalso|exact G].
+      apply (L1 (T' - T0)); [unfold T1 in G; lia|]. replace (T0 + 1 * (T' - T0)) with T' by lia. exact P1. }
+    assert (A2 : T2 <= T').
+    { destruct mo as [b|].
+      - destruct (Z_lt_le_dec T' T2) as [G|G]; [exfalso|exact G].
+        assert (E : T' = T1 + 60 * ((T' - T1) / 60)) by (unfold fs in *; lia).
+        apply (L2 ((T' - T1) / 60)); [unfold T2 in G; lia|]. rewrite <- E. exact P2.
+      - pose proof (omatch_none_zero None (fun i => fm (T1 + 60 * i)) j2 ltac:(lia) L2 eq_refl).
+        unfold T2. lia. }
+    destruct ho as [a|].
+    + destruct mo as [b|]; [|specialize (MH eq_refl); discriminate MH].
+      destruct (Z_lt_le_dec T' T3) as [G|G]; [exfalso|exact G].
+      cbn [omatch] in *.
+      assert (S2 : fs T2 = sT) by (unfold fs in *; unfold T2; lia).
+      assert (E : T' = T2 + 3600 * ((T' - T2) / 3600)) by (unfold fs, fm in *; lia).
+      apply (L3 ((T' - T2) / 3600)); [unfold T3 in G; lia|]. rewrite <- E. exact P3.
+    + pose proof (omatch_none_zero None (fun i => fh (T2 + 3600 * i)) j3 ltac:(lia) L3 eq_refl).
+      unfold T3. lia.
+Qed.
+
+Definition opt_rel (oq : option Q) (oz : option Z) (hi : Z) : Prop :=
+  match oq, oz with
+  | Some q, Some z => (q == inject_Z z)%Q /\ 0 <= z < hi
+  | None, None => True
+  | _, _ => False
+  end.
+
+Definition time_chain (md : mode) (sQ : Q) (mQ hQ : option Q) (x : tp) : tres :=
+  tbind (step_until md tod_sec bump_sec sQ 61 x) (fun p1 =>
+  tbind (match mQ with Some m => step_until md tod_min bump_min m 61 p1 | None => TOk p1 end) (fun p2 =>
+  tbind (match hQ with Some h => step_until md tod_hr bump_hr h 25 p2 | None => TOk p2 end) (fun p3 => TOk p3))).
+
+Lemma opt_min_loop md mQ mo x0 : opt_rel mQ mo 60 -> good md x0 ->
+  exists r j, match mQ with Some m => step_until md tod_min bump_min m 61 x0 | None => TOk x0 end = TOk r /\
+    good md r /\ tzone r = tzone x0 /\ rep_kind (tdate r) = rep_kind (tdate x0) /\ 0 <= j < 60 /\
+    TT md r = TT md x0 + 60 * j /\ omatch mo (fm (TT md r)) /\
+    (forall i, 0 <= i < j -> ~ omatch mo (fm (TT md x0 + 60 * i))).
+Proof.
+  intros R G. destruct mQ as [q|], mo as [z|]; cbn [opt_rel] in R; try contradiction.
+  - destruct R as [E B]. destruct (min_loop md q z x0 E B G) as (r & j & H). exists r, j. exact H.
+  - exists x0, 0. split; [reflexivity|]. split; [exact G|]. split; [reflexivity|]. split; [reflexivity|].
+    split; [lia|]. split; [lia|]. split; [exact I|]. intros i Hi. lia.
+Qed.
+Lemma opt_hr_loop md hQ ho x0 : opt_rel hQ ho 24 -> good md x0 ->
+  exists r j, match hQ with Some h => step_until md tod_hr bump_hr h 25 x0 | None => TOk x0 end = TOk r /\
+    good md r /\ tzone r = tzone x0 /\ rep_kind (tdate r) = rep_kind (tdate x0) /\ 0 <= j < 24 /\
+    TT md r = TT md x0 + 3600 * j /\ omatch ho (fh (TT md r)) /\
+    (forall i, 0 <= i < j -> ~ omatch ho (fh (TT md x0 + 3600 * i))).
+Proof.
+  intros R G. destruct hQ as [q|], ho as [z|]; cbn [opt_rel] in R; try contradiction.
+  - destruct R as [E B]. destruct (hr_loop md q z x0 E B G) as (r & j & H). exists r, j. exact H.
+  - exists x0, 0. split; [reflexivity|]. split; [exact G|]. split; [reflexivity|]. split; [reflexivity|].
+    split; [lia|]. split; [lia|]. split; [exact I|]. intros i Hi. lia.
+Qed.
+
+Lemma time_chain_spec md x sQ mQ hQ sT mo ho : good md x -> (sQ == inject_Z sT)%Q -> 0 <= sT < 60 ->
+  opt_rel mQ mo 60 -> opt_rel hQ ho 24 -> (mo = None -> ho = None) ->
+  exists r, time_chain md sQ mQ hQ x = TOk r /\ good md r /\ tzone r = tzone x /\
+    rep_kind (tdate r) = rep_kind (tdate x) /\ least sT mo ho (TT md x) (TT md r).
+Proof.
+  intros G Es Bs Rm Rh MH. unfold time_chain.
+  destruct (sec_loop md sQ sT x Es Bs G) as (r1 & j1 & -> & G1 & Z1 & K1 & B1 & T1 & F1 & L1).
+  cbn [tbind].
+  destruct (opt_min_loop md mQ mo r1 Rm G1) as (r2 & j2 & -> & G2 & Z2 & K2 & B2 & T2 & F2 & L2).
+  cbn [tbind].
+  destruct (opt_hr_loop md hQ ho r2 Rh G2) as (r3 & j3 & -> & G3 & Z3 & K3 & B3 & T3 & F3 & L3).
+  cbn [tbind].
+  exists r3. split; [reflexivity|]. split; [exact G3|]. split; [congruence|]. split; [congruence|].
+  rewrite T3, T2, T1 in *. apply combine; assumption.
+Qed.
+
+Lemma time_chain_done md r sQ mQ hQ sT mo ho : good md r -> (sQ == inject_Z sT)%Q ->
+  opt_rel mQ mo 60 -> opt_rel hQ ho 24 -> pm sT mo ho (TT md r) ->
+  time_chain md sQ mQ hQ r = TOk r.
+Proof.
+  intros G Es Rm Rh (P1 & P2 & P3). unfold time_chain.
+  rewrite (tloop_done md tod_sec bump_sec fs sT (get_sec md) sQ 61 r Es G P1). cbn [tbind].
+  assert (E2 : match mQ with Some m => step_until md tod_min bump_min m 61 r | None => TOk r end = TOk r).
+  { destruct mQ as [q|], mo as [z|]; cbn [opt_rel] in Rm; try contradiction; [|reflexivity].
+    destruct Rm as [E _]. apply (tloop_done md tod_min bump_min fm z (get_min md) q 61 r E G P2). }
+  rewrite E2. cbn [tbind].
+  assert (E3 : match hQ with Some h => step_until md tod_hr bump_hr h 25 r | None => TOk r end = TOk r).
+  { destruct hQ as [q|], ho as [z|]; cbn [opt_rel] in Rh; try contradiction; [|reflexivity].
+    destruct Rh as [E _]. apply (tloop_done md tod_hr bump_hr fh z (get_hr md) q 25 r E G P3). }
+  rewrite E3. reflexivity.
+Qed.
+
+(* ---------- add_truncated with time fields only is the chain of three loops ---------- *)
+Definition eff_sec (t : trunc) : Q := match t_sec t with Some s => s | None => 0%Q end.
+Definition eff_min (t : trunc) : option Q :=
+  match t_hour t, t_min t with Some _, None => Some 0%Q | _, m => m end.
+Definition eff_sT (ts : option Z) : Z := match ts with Some c => c | None => 0 end.
+Definition eff_mo (th tm : option Z) : option Z := match th, tm with Some _, None => Some 0 | _, m => m end.
+
+Lemma to_hms_hms x h m s : ttod x = HMS h m s -> to_hms x = x.
+Proof. intros E. unfold to_hms. rewrite E. cbn [get_hour_minute_second]. destruct x; cbn in *; subst; reflexivity. Qed.
+
+Lemma add_truncated_chain md p t h m s : time_only t -> ttod (normalised md p) = HMS h m s ->
+  add_truncated md p t = time_chain md (eff_sec t) (eff_min t) (t_hour t) (normalised md p).
+Proof.
+  intros (D1 & D2 & D3 & D4 & _ & _ & _ & Any) Et.
+  destruct t as [th tm ts tdow tdom tdoy twk tzn].
+  cbn [t_hour t_min t_sec t_dow t_dom t_doy t_week t_zone] in *. subst tdow tdom tdoy twk.
+  unfold add_truncated, time_chain, eff_sec, eff_min.
+  cbn [t_hour t_min t_sec t_dow t_dom t_doy t_week t_zone].
+  destruct th as [a|], tm as [b|], ts as [c|]; cbv beta iota zeta;
+    rewrite ?(to_hms_hms _ _ _ _ Et); cbn [tbind]; try reflexivity.
+  exfalso. destruct Any as [A | [A | A]]; apply A; reflexivity.
+Qed.
+
+Lemma field_rel o hi : field_ok o hi -> opt_rel o (qfl o) hi.
+Proof.
+  destruct o as [v|]; cbn [field_ok qfl opt_rel]; [|trivial]. intros (I & A & B).
+  assert (E : (v == inject_Z (Qfloor v))%Q) by (apply Qeq_bool_iff; exact I).
+  split; [exact E|]. rewrite E in A, B. change 0%Q with (inject_Z 0) in A.
+  rewrite <- Zle_Qle in A. rewrite <- Zlt_Qlt in B. lia.
+Qed.
+
+Lemma sod_pm th tm ts T : has_time (mkTod th tm ts) = true ->
+  (sod_matches (mkTod th tm ts) (T mod 86400) = true <-> pm (eff_sT ts) (eff_mo th tm) th T).
+Proof.
+  intros H. unfold sod_matches, pm, fs, fm, fh, eff_sT, eff_mo. cbn [ts_h ts_m ts_s]. cbv zeta.
+  destruct th as [a|], tm as [b|], ts as [c|]; cbn [omatch]; try discriminate H; lia.
+Qed.
+
+Lemma day_matches_any md n : day_matches md (mkDay None None None None) n = true.
+Proof.
+  unfold day_matches. destruct (cal_of_dn md n) as [[? ?] ?]. destruct (ord_of_dn md n) as [? ?].
+  destruct (week_of_dn md n) as [[? ?] ?]. reflexivity.
+Qed.
+
+Lemma local_ds_whole md x T : wholeT md x T ->
+  fst (local_ds md x (tzone x)) = T / 86400 /\
+  (snd (local_ds md x (tzone x)) == inject_Z (T mod 86400))%Q.
+Proof.
+  intros W. unfold wholeT in W. unfold local_ds. cbv zeta. cbn [fst snd].
+  assert (X : (instant md x + inject_Z (zone_secs (tzone x)) == inject_Z T)%Q).
+  { unfold instant. rewrite W. unfold qz. ring. }
+  assert (F : Qfloor ((instant md x + inject_Z (zone_secs (tzone x))) / inject_Z 86400) = T / 86400).
+  { apply floor_unique.
+    - apply Qle_shift_div_l; [reflexivity|]. rewrite X, <- inject_Z_mult, <- Zle_Qle. lia.
+    - apply Qlt_shift_div_r; [reflexivity|]. rewrite X, <- inject_Z_mult, <- Zlt_Qlt. lia. }
+  rewrite F. split; [reflexivity|]. rewrite Qred_correct, X.
+  replace (T mod 86400) with (T + - (86400 * (T / 86400))) by lia.
+  rewrite inject_Z_plus, inject_Z_opp. reflexivity.
+Qed.
+
+Lemma least_next_match md th tm ts T0 T3 : has_time (mkTod th tm ts) = true ->
+  least (eff_sT ts) (eff_mo th tm) th T0 T3 ->
+  next_match md (mkDay None None None None) (mkTod th tm ts) (T0 / 86400) (T0 mod 86400) 2 =
+    Some (T3 / 86400, T3 mod 86400).
+Proof.
+  intros H (B & P & L).
+  apply next_match_intro; try assumption; try lia.
+  - unfold lex_le. cbn [fst snd]. lia.
+  - apply day_matches_any.
+  - apply sod_pm; assumption.
+  - intros n' x' Le Hn Hx _ Sm. unfold lex_le in *. cbn [fst snd] in *.
+    assert (E1 : (86400 * n' + x') mod 86400 = x') by lia.
+    rewrite <- E1 in Sm. apply (sod_pm th tm ts _ H) in Sm.
+    specialize (L (86400 * n' + x') ltac:(lia) Sm). lia.
+Qed.
+
+Lemma eff_rels t : time_only t ->
+  (eff_sec t == inject_Z (eff_sT (qfl (t_sec t))))%Q /\ 0 <= eff_sT (qfl (t_sec t)) < 60 /\
+  opt_rel (eff_min t) (eff_mo (qfl (t_hour t)) (qfl (t_min t))) 60 /\
+  opt_rel (t_hour t) (qfl (t_hour t)) 24 /\
+  (eff_mo (qfl (t_hour t)) (qfl (t_min t)) = None -> qfl (t_hour t) = None) /\
+  has_time (mkTod (qfl (t_hour t)) (qfl (t_min t)) (qfl (t_sec t))) = true.
+Proof.
+  intros (_ & _ & _ & _ & Fh & Fm & Fs & Any).
+  pose proof (field_rel _ _ Fh) as Rh. pose proof (field_rel _ _ Fm) as Rm. pose proof (field_rel _ _ Fs) as Rs.
+  unfold eff_sec, eff_min, eff_sT, eff_mo, has_time. cbn [ts_h ts_m ts_s].
+  destruct (t_hour t) as [a|], (t_min t) as [b|], (t_sec t) as [c|]; cbn [qfl opt_rel] in *;
+    repeat split; try tauto; try lia; try reflexivity; try discriminate.
+Qed.
+
+Lemma add_trunc_time_only : forall md p t, valid_tp md p = true -> whole_second p -> time_only t -> t_zone t = None ->
+  exists r, tp_add_trunc md t p = TOk r /\ valid_tp md r = true /\ tzone r = tzone p /\
+    rep_kind (tdate r) = rep_kind (tdate p) /\
+    (let '(n0, s0) := local_ds md p (tzone p) in let '(n, s) := local_ds md r (tzone p) in
+     next_match md (mkDay None None None None) (mkTod (qfl (t_hour t)) (qfl (t_min t)) (qfl (t_sec t)))
+                n0 (Qfloor s0) 2 = Some (n, Qfloor s) /\ qis_int s = true) /\
+    tp_add_trunc md t r = TOk r.
+Proof.
+  intros md p t V W TO Hz.
+  destruct (valid_whole md p V W) as [T0 W0].
+  destruct (normalised_spec md p V) as (Nx & Ix & Kx & Ktx & Zx).
+  assert (Ktx' : tod_kind (ttod (normalised md p)) = 0).
+  { rewrite Ktx. unfold whole_second in W. destruct (ttod p); try contradiction. reflexivity. }
+  destruct (good_after md p T0 (normalised md p) 0 W0 Nx Ktx' Zx) as [Gx Tx].
+  { rewrite Ix. change (inject_Z 0) with 0%Q. ring. }
+  rewrite Z.add_0_r in Tx.
+  destruct (good_fields md _ Gx) as (h & m & s & Et & _).
+  destruct (eff_rels t TO) as (Es & Bs & Rm & Rh & MH & HT).
+  destruct (time_chain_spec md _ _ _ _ _ _ _ Gx Es Bs Rm Rh MH) as (r & Er & Gr & Zr & Kr & L).
+  rewrite Tx in L.
+  assert (Zr' : tzone r = tzone p) by congruence.
+  exists r. unfold tp_add_trunc. rewrite Hz.
+  rewrite (add_truncated_chain md p t h m s TO Et), Er. cbn [tbind].
+  rewrite <- Zr', to_time_zone_same.
+  split; [reflexivity|]. split; [apply normal_valid; apply Gr|]. split; [reflexivity|].
+  split; [congruence|].
+  destruct (good_fields md r Gr) as (h' & m' & s' & Et' & Wr & _).
+  assert (Nr : normalised md r = r).
+  { apply normalised_normal. destruct Gr as [N _]. apply (normal_tp_parts md r N). }
+  split.
+  - rewrite Zr'.
+    destruct (local_ds_whole md p T0 W0) as [A0 B0]. destruct (local_ds_whole md r _ Wr) as [A1 B1].
+    rewrite Zr' in A1, B1.
+    destruct (local_ds md p (tzone p)) as [n0 s0]. destruct (local_ds md r (tzone p)) as [n1 s1].
+    cbn [fst snd] in *. subst n0 n1.
+    rewrite (Qfloor_comp _ _ B0), (Qfloor_comp _ _ B1), !Qfloor_Z.
+    split; [apply least_next_match; assumption|].
+    apply qis_int_iff. eexists. exact B1.
+  - rewrite (add_truncated_chain md r t h' m' s' TO); [|rewrite Nr; exact Et'].
+    rewrite Nr. rewrite (time_chain_done md r _ _ _ _ _ _ Gr Es Rm Rh (proj1 (proj2 L))). cbn [tbind].
+    rewrite to_time_zone_same. reflexivity.
+Qed.
+Print Assumptions add_trunc_time_only.
+Open Scope Z_scope.
